@@ -18,7 +18,8 @@
 (*             output, alternative outputs allowed by Dev_* readings,      *)
 (*             stages that changed the text (vacuity counters)             *)
 (* The class table is read from the file named by env C17_MCC, which the   *)
-(* driver dumps from allsorts before TLC starts (the table is an input).   *)
+(* driver dumps from allsorts before TLC starts; its values are checked    *)
+(* against ModifiedCcc.tla by MC_ModifiedCcc (a separate, earlier step).   *)
 (***************************************************************************)
 EXTENDS Preprocess, SequencesExt
 
